@@ -660,16 +660,18 @@ func (g *GeneralSubtreeIP) UnmarshalJSON(b []byte) error {
 	if err := json.Unmarshal(b, &aux); err != nil {
 		return err
 	}
-	ip, ipNet, err := net.ParseCIDR(aux.CIDR)
-	if err != nil {
-		// A mask that is not a prefix is written by MarshalJSON (net.IPNet.String)
-		// as "address/hexmask", which net.ParseCIDR does not read.
-		var mask net.IPMask
-		var ok bool
-		if ip, mask, ok = parseIPWithHexMask(aux.CIDR); !ok {
+	// A mask that is not a prefix is written by net.IPNet.String as "address/hexmask" (8 or 32 hex digits,
+	// which no decimal prefix length has). It is read first: net.ParseCIDR would take a hex mask made of
+	// decimal digits, such as 00000020, for a prefix length.
+	var ipNet *net.IPNet
+	ip, mask, ok := parseIPWithHexMask(aux.CIDR)
+	if ok {
+		ipNet = &net.IPNet{IP: ip, Mask: mask}
+	} else {
+		var err error
+		if ip, ipNet, err = net.ParseCIDR(aux.CIDR); err != nil {
 			return err
 		}
-		ipNet = &net.IPNet{IP: ip, Mask: mask}
 	}
 	g.Data.IP = ip
 	g.Data.Mask = ipNet.Mask
